@@ -276,6 +276,22 @@ def main : IO UInt32 := do
     | ["v2", "!!", "YQ"] => "error / ok \"a\"" | ["v2", "YQ", "!!"] => "ok \"a\" / error" | ["id", "!!"] => "ok \"id\" / error" | _ => "error / error"
   bad := bad + (← firstDiff "decodeTicket(other shapes)" shapes qs
     (fun ps => showT (Gen.Tr.decodeTicketID E0 ps) ++ " / " ++ showT (Gen.Tr.decodeTicketSecret E0 ps)) wantShape)
+  -- the director's redirect getters: forwarded / own URI × proxy prefix × whitelist
+  let gReqs : List (Bool × List (Str × Str) × Str) := [true, false].flatMap fun rp =>
+    ([[], [("X-Forwarded-Host", "a.b"), ("X-Forwarded-Proto", "https"), ("X-Forwarded-Uri", "/x")], [("X-Forwarded-Host", "evil.b"), ("X-Forwarded-Uri", "/oauth2/cb")],
+      [("X-Forwarded-Uri", "//evil.b")], [("X-Forwarded-Host", "a.b"), ("X-Forwarded-Uri", "/oauth2x")], [("X-Forwarded-Uri", "/ok?q=1")]] : List (List (String × String))).flatMap fun h =>
+      (["/own", "/oauth2/start", "//own", "/"] : List String).map fun u => (rp, h.map (fun kv => (kv.1.toList, kv.2.toList)), u.toList)
+  let gR (p : Bool × List (Str × Str) × Str) : O2P.Req := { method := ['G'], path := ['/'], uri := p.2.2, headers := p.2.1, host := ['h'], scheme := "http".toList }
+  let gG (p : Bool × List (Str × Str) × Str) : Go.Req := { header := (gR p).header, host := ['h'], urlScheme := "http".toList, requestURI := p.2.2, scope := some ⟨p.1⟩ }
+  let gAllowed : List Str := ["a.b".toList]
+  let gValid : Str → Bool := fun t => Redirect.isValidRedirect gAllowed t ((Ev.urlParse t).map fun x => (x.1, x.2.1))
+  let showG : Bool × List (Str × Str) × Str → String := fun p => "reverse-proxy=" ++ toString p.1 ++ " uri=" ++ q p.2.2 ++ " headers=" ++ toString (p.2.1.map fun kv => (String.ofList kv.1, String.ofList kv.2))
+  bad := bad + (← firstDiff "getXForwardedHeadersRedirect" gReqs showG
+    (fun p => showM q (Gen.Tr.getXForwardedHeadersRedirect Ev gAllowed "/oauth2/".toList (gG p)))
+    (fun p => q (Redirect.getXForwarded gValid (isForwardedRequest { reverseProxy := p.1 } (gR p)) (requestProto { reverseProxy := p.1 } (gR p)) (requestHost { reverseProxy := p.1 } (gR p)) (requestURI { reverseProxy := p.1 } (gR p)) "/oauth2/".toList)))
+  bad := bad + (← firstDiff "getURIRedirect" gReqs showG
+    (fun p => showM q (Gen.Tr.getURIRedirect Ev gAllowed "/oauth2/".toList (gG p)))
+    (fun p => q (Redirect.getURI gValid (requestURI { reverseProxy := p.1 } (gR p)) p.2.2 "/oauth2/".toList)))
   IO.println s!"trsearch: {bad} function(s) with a disagreement"
   return (if bad == 0 then 0 else 1)
 
